@@ -302,6 +302,8 @@ pub mod sched {
     #[derive(Default)]
     struct State {
         gates: HashMap<&'static str, Arc<Gate>>,
+        /// gates that only park a thread of one role
+        role_gates: HashMap<(&'static str, u8), Arc<Gate>>,
         delay_rng: u64,
         delay_per_mille: u32,
         delay_max_us: u32,
@@ -321,6 +323,13 @@ pub mod sched {
     pub fn arm_gate(name: &'static str, g: Arc<Gate>) {
         with(|s| {
             s.gates.insert(name, g);
+        });
+        ENABLED.store(true, Ordering::SeqCst);
+    }
+    /// One-shot gate that only parks a thread whose role is `role` (0 = background worker).
+    pub fn arm_gate_for_role(name: &'static str, role: u8, g: Arc<Gate>) {
+        with(|s| {
+            s.role_gates.insert((name, role), g);
         });
         ENABLED.store(true, Ordering::SeqCst);
     }
@@ -346,7 +355,7 @@ pub mod sched {
         ENABLED.store(false, Ordering::SeqCst);
         let old = lock(&STATE).take();
         if let Some(old) = old {
-            for g in old.gates.values() {
+            for g in old.gates.values().chain(old.role_gates.values()) {
                 g.open();
             }
         }
@@ -379,7 +388,7 @@ pub mod sched {
             if s.record && s.arrivals.len() < 1_000_000 {
                 s.arrivals.push((name, role));
             }
-            let gate = s.gates.remove(name);
+            let gate = s.gates.remove(name).or_else(|| s.role_gates.remove(&(name, role)));
             let mut delay = None;
             if gate.is_none() && s.delay_per_mille > 0 {
                 let mut x = s.delay_rng;
